@@ -58,6 +58,9 @@ Alts == <<
   <<"references", <<Ref(1, "", "A,B.", "Consortium", "T", "J", "", "a remark"), Ref(2, "(bases 2 to 5; 7 to 9)", "", "", "", "Unpublished", "", "")>>>>,
   <<"references", <<Ref(1, "(bases 1 to 10)", "A,B.", "", "a title that\ncontinues on a second line", "J", "9", "remark\nsecond line")>>>>,
   <<"references", <<Ref(12, "(sites)", "A,B.", "", "T", "J", "", "")>>>>,
+  \* reference numbers of three and four digits (the number column is three wide)
+  <<"references", <<Ref(100, "(bases 1 to 10)", "A,B.", "", "T", "J", "", ""), Ref(999, "", "A,B.", "", "T", "J", "", "")>>>>,
+  <<"references", <<Ref(1000, "(bases 1 to 10)", "A,B.", "", "T", "J", "", ""), Ref(12345, "(sites)", "A,B.", "", "T", "J", "", "")>>>>,
   <<"comments", <<"one comment">>>>, <<"comments", <<"first paragraph\n\nsecond paragraph after a blank line">>>>,
   <<"definition", "a definition\n\nwith a blank line">>, <<"extra", << <<"NOTE", "one\n\nthree">> >>>>,
   <<"references", <<Ref(1, "(bases 1 to 10)", "A,B.", "", "T", "J", "", "remark para one\n\nremark para two")>>>>, <<"comments", <<"first\nsecond line", "another comment">>>>,
@@ -77,6 +80,9 @@ Alts == <<
                Feat("misc_feature", Am(2, 6), << <<"note", "">> >>), Feat("gene", Jn(<<Cp(Rg(6, 8, FALSE, FALSE)), Cp(Rg(1, 3, FALSE, FALSE))>>), <<>>)>>>>,
   <<"feats", <<SrcFeat, Feat("gene", Rg(0, 10, TRUE, TRUE), << <<"note", Long \o " " \o Long>>, <<"$a", "value of an unknown name">>, <<"$b", "">> >>)>>>>,
   <<"feats", <<SrcFeat, Feat("gene", Rg(2, 4, FALSE, FALSE), << <<"note", "line one\nline two">>, <<"transl_table", "11">> >>)>>>>,
+  \* quoted values of three and more lines with short (even empty-looking) middle lines
+  <<"feats", <<SrcFeat, Feat("gene", Rg(2, 4, FALSE, FALSE), << <<"note", "first line of the note\nshort\nlast line of the note">>,
+                                                               <<"function", "a\nb\nc\nd">>, <<"product", W58 \o "\nx\n" \o W57>> >>)>>>>,
   \* a location longer than one line (wrapped at a comma), a 15-letter key, values around the wrap width
   <<"feats", <<SrcFeat, Feat("CDS", Jn(<<Rg(0, 1, TRUE, FALSE), Rg(1, 2, FALSE, FALSE), Pt(2), Rg(3, 5, FALSE, FALSE), Pt(5), Rg(6, 7, FALSE, FALSE), Pt(7), Pt(8), Rg(8, 9, FALSE, FALSE),
                                           Pt(9), Rg(0, 2, FALSE, FALSE), Rg(2, 4, FALSE, FALSE), Rg(4, 6, FALSE, FALSE), Rg(6, 8, FALSE, FALSE), Rg(8, 10, FALSE, TRUE)>>), << <<"gene", "long">> >>),
@@ -127,7 +133,12 @@ OpT == {<<"insert", a, 0>> : a \in {0, 3, 8}} \cup {<<"embed", 4, 0>>}
 Pipes == UNION {SeqsOver(OpT, n) : n \in 1..PipeLen}
 PipeSeq == SetToSeq(Pipes)
 
-NItems == CASE Mode = "corpus" -> Len(PipeSeq) * Len(Corpus) [] Mode = "shapes" -> Len(ShapeSeq) [] Mode = "registry" -> Len(HistSeq) [] Mode = "dates" -> (Len(DateSeq) + Batch - 1) \div Batch
+\* Mode "pad": streams of Batch records whose COMMENT is a word of Y0..Y1 letters - every record starts, and
+\* every field falls, at a different offset modulo the reader's buffer size
+RECURSIVE Rep(_, _)
+Rep(str, n) == IF n = 0 THEN "" ELSE IF n % 2 = 0 THEN Rep(str \o str, n \div 2) ELSE str \o Rep(str \o str, n \div 2)
+NPads == Y1 - Y0 + 1
+NItems == CASE Mode = "pad" -> (NPads + Batch - 1) \div Batch [] Mode = "corpus" -> Len(PipeSeq) * Len(Corpus) [] Mode = "shapes" -> Len(ShapeSeq) [] Mode = "registry" -> Len(HistSeq) [] Mode = "dates" -> (Len(DateSeq) + Batch - 1) \div Batch
 Picked == SelectSeq([j \in 1..NItems |-> j], LAMBDA j : j % Stride = Offset % Stride)
 
 CaseJson(j) ==
@@ -139,6 +150,10 @@ CaseJson(j) ==
          IN [id |-> "sh" \o ToString(j), teach |-> <<>>, recs |-> [q \in 1..k |-> IF q = k THEN r ELSE [Base EXCEPT !.locus = "PRE" \o ToString(q)]]]
     [] Mode = "registry" ->
          [id |-> "rg" \o ToString(j), teach |-> HistSeq[j], recs |-> <<[Base EXCEPT !.feats = RegFeats(RegAfter(HistSeq[j]))]>>]
+    [] Mode = "pad" ->
+         LET lo0 == (j - 1) * Batch  n == IF NPads - lo0 < Batch THEN NPads - lo0 ELSE Batch
+         IN [id |-> "pd" \o ToString(j), teach |-> <<>>,
+             recs |-> [q \in 1..n |-> [Base EXCEPT !.comments = <<Rep("x", Y0 + lo0 + q - 1)>>, !.locus = "P" \o ToString(q)]]]
     [] Mode = "dates" ->
          LET lo0 == (j - 1) * Batch  n == IF Len(DateSeq) - lo0 < Batch THEN Len(DateSeq) - lo0 ELSE Batch
          IN [id |-> "dt" \o ToString(j), teach |-> <<>>, recs |-> [q \in 1..n |-> [Base EXCEPT !.date = DateSeq[lo0 + q], !.locus = "D" \o ToString(q)]]]
